@@ -84,6 +84,7 @@ static void clean_root(void)
 {
   nftw(root, rm_cb, 32, FTW_DEPTH | FTW_PHYS);
   mkdir(root, 0755);
+  if (chdir(root)) perror("chdir");
 }
 
 
@@ -540,6 +541,19 @@ int main(int argc, char **argv)
     } else if (!strcmp(c, "errloc")) {
       char *fn = NULL; uint64_t ln = 0; econf_errLocation(&fn, &ln);
       printf("loc file="); enc_path(fn); printf(" line=%" PRIu64 "\n", ln); free(fn);
+    } else if (!strcmp(c, "opts")) {
+      econf_file *kf = obj(t[1]);
+      if (!kf) printf("noobj\n");
+      else {
+        printf("opts join=%d python=%d parse_dirs=", kf->join_same_entries ? 1 : 0, kf->python_style ? 1 : 0);
+        for (int i = 0; i < kf->parse_dirs_count; i++) { if (i) putchar(','); enc(virt(kf->parse_dirs[i])); }
+        printf(" conf_dirs=");
+        for (int i = 0; i < kf->conf_count; i++) { if (i) putchar(','); enc(kf->conf_dirs[i]); }
+        printf(" root=");
+        if (kf->root_prefix && !strncmp(kf->root_prefix, root, rootlen)) enc(kf->root_prefix + rootlen);   /* the driver put the scratch root in front */
+        else enc(kf->root_prefix);
+        putchar('\n');
+      }
     } else if (!strcmp(c, "errstring")) {
       printf("rc=0 v="); enc(econf_errString((econf_err) atoi(t[1]))); putchar('\n');
     } else if (!strcmp(c, "free")) {
